@@ -60,7 +60,7 @@ theorem sumSize_append {ra rb : List Stmt} {lo hi : Nat} (h : hi ≤ ra.length) 
 
 /-! ### `fixOne` cut into pieces -/
 
-def fixRel (ss : List Stmt) (i : Nat) (s : Stmt) : Outcome Stmt :=
+def fixBranch (ss : List Stmt) (i : Nat) (s : Stmt) : Outcome Stmt :=
   match s.pkg.additional.int? with
   | none => .internal
   | some b =>
@@ -79,14 +79,14 @@ def fixRel (ss : List Stmt) (i : Nat) (s : Stmt) : Outcome Stmt :=
         | .ok v => .ok { s with pkg := { s.pkg with additional := v } }
         | .error _ => .internal
 
-def fixStep1 (ss : List Stmt) (s : Stmt) (ov : Value) : Outcome Stmt :=
+def fixPart1 (ss : List Stmt) (s : Stmt) (ov : Value) : Outcome Stmt :=
   if ov.isAddrExpr then
     (match addrOffset ss ov with
      | .ok v => .ok { s with pkg := { s.pkg with additional := v } }
      | .diag => .diag | .internal => .internal | .diverged => .diverged)
   else .ok s
 
-def fixStep2 (ss : List Stmt) (ov : Value) (s1 : Stmt) : Outcome Stmt :=
+def fixPart2 (ss : List Stmt) (ov : Value) (s1 : Stmt) : Outcome Stmt :=
   if ov.isAddress then
     match ov.int? with
     | some t => (match addrOf ss t with
@@ -106,7 +106,7 @@ def fixRelTarget (ss : List Stmt) (s2 : Stmt) : Outcome Nat :=
              | some t => (match addrIntOf ss t with | some a => .ok a | none => .internal)
              | none => .internal)
 
-def fixStep3 (ss : List Stmt) (i : Nat) (s2 : Stmt) : Outcome Stmt :=
+def fixPart3 (ss : List Stmt) (i : Nat) (s2 : Stmt) : Outcome Stmt :=
   if s2.pkg.needsRes then
     match fixRelTarget ss s2, addrIntOf ss i with
     | .ok r, some start =>
@@ -121,34 +121,34 @@ def fixStep3 (ss : List Stmt) (i : Nat) (s2 : Stmt) : Outcome Stmt :=
   else .ok s2
 
 def fixNonRel (ss : List Stmt) (i : Nat) (s : Stmt) (ov : Value) : Outcome Stmt :=
-  match fixStep1 ss s ov with
+  match fixPart1 ss s ov with
   | .ok s1 =>
-    (match fixStep2 ss ov s1 with
-     | .ok s2 => fixStep3 ss i s2
+    (match fixPart2 ss ov s1 with
+     | .ok s2 => fixPart3 ss i s2
      | o => o)
   | o => o
 
 theorem fixOne_eq (ss : List Stmt) (i : Nat) (s : Stmt) :
     fixOne ss i s =
-      if s.operand.kind == .relative then fixRel ss i s
+      if s.operand.kind == .relative then fixBranch ss i s
       else match s.operand.value with
         | .pyNone => .internal
         | ov => fixNonRel ss i s ov := by
   rfl
 
-theorem fixRel_append {ra rb : List Stmt} {i : Nat} {s : Stmt} (hi : i < ra.length)
+theorem fixBranch_append {ra rb : List Stmt} {i : Nat} {s : Stmt} (hi : i < ra.length)
     (hb : ∀ b, s.pkg.additional.int? = some b → b ≤ ra.length) :
-    fixRel (ra ++ rb) i s = fixRel ra i s := by
-  unfold fixRel
+    fixBranch (ra ++ rb) i s = fixBranch ra i s := by
+  unfold fixBranch
   cases hbb : s.pkg.additional.int? with
   | none => rfl
   | some b =>
     dsimp only
     rw [sumSize_append (show i + 1 ≤ ra.length by omega), sumSize_append (hb b hbb)]
 
-theorem fixStep1_append {ra rb : List Stmt} {s x : Stmt} {ov : Value} (h : fixStep1 ra s ov = .ok x) :
-    fixStep1 (ra ++ rb) s ov = .ok x := by
-  unfold fixStep1 at h ⊢
+theorem fixPart1_append {ra rb : List Stmt} {s x : Stmt} {ov : Value} (h : fixPart1 ra s ov = .ok x) :
+    fixPart1 (ra ++ rb) s ov = .ok x := by
+  unfold fixPart1 at h ⊢
   split at h
   · rename_i hc
     rw [if_pos hc]
@@ -157,9 +157,9 @@ theorem fixStep1_append {ra rb : List Stmt} {s x : Stmt} {ov : Value} (h : fixSt
     | _ => rw [ho] at h; cases h
   · rename_i hc; rw [if_neg hc]; exact h
 
-theorem fixStep2_append {ra rb : List Stmt} {s1 x : Stmt} {ov : Value} (h : fixStep2 ra ov s1 = .ok x) :
-    fixStep2 (ra ++ rb) ov s1 = .ok x := by
-  unfold fixStep2 at h ⊢
+theorem fixPart2_append {ra rb : List Stmt} {s1 x : Stmt} {ov : Value} (h : fixPart2 ra ov s1 = .ok x) :
+    fixPart2 (ra ++ rb) ov s1 = .ok x := by
+  unfold fixPart2 at h ⊢
   split at h
   · rename_i hc
     rw [if_pos hc]
@@ -196,9 +196,9 @@ theorem fixRelTarget_append {ra rb : List Stmt} {s2 : Stmt} {n : Nat} (h : fixRe
         | some a => rw [addrIntOf_append ha]; rw [ha] at h; exact h
     exact hgoal
 
-theorem fixStep3_append {ra rb : List Stmt} {i : Nat} {s2 x : Stmt} (h : fixStep3 ra i s2 = .ok x) :
-    fixStep3 (ra ++ rb) i s2 = .ok x := by
-  unfold fixStep3 at h ⊢
+theorem fixPart3_append {ra rb : List Stmt} {i : Nat} {s2 x : Stmt} (h : fixPart3 ra i s2 = .ok x) :
+    fixPart3 (ra ++ rb) i s2 = .ok x := by
+  unfold fixPart3 at h ⊢
   split at h
   · rename_i hc
     rw [if_pos hc]
@@ -219,16 +219,16 @@ theorem fixStep3_append {ra rb : List Stmt} {i : Nat} {s2 x : Stmt} (h : fixStep
 theorem fixNonRel_append {ra rb : List Stmt} {i : Nat} {s x : Stmt} {ov : Value}
     (h : fixNonRel ra i s ov = .ok x) : fixNonRel (ra ++ rb) i s ov = .ok x := by
   unfold fixNonRel at h ⊢
-  cases h1 : fixStep1 ra s ov with
+  cases h1 : fixPart1 ra s ov with
   | ok s1 =>
     rw [h1] at h
-    rw [fixStep1_append h1]
+    rw [fixPart1_append h1]
     dsimp only at h ⊢
-    cases h2 : fixStep2 ra ov s1 with
+    cases h2 : fixPart2 ra ov s1 with
     | ok s2 =>
       rw [h2] at h
-      rw [fixStep2_append h2]
-      exact fixStep3_append h
+      rw [fixPart2_append h2]
+      exact fixPart3_append h
     | _ => rw [h2] at h; cases h
   | _ => rw [h1] at h; cases h
 
@@ -240,7 +240,7 @@ theorem fixOne_append {ra rb : List Stmt} {i : Nat} {s x : Stmt} (hi : i < ra.le
   rw [fixOne_eq] at h ⊢
   split at h
   · rename_i hk
-    rw [if_pos hk, fixRel_append hi (hb (by simpa using hk))]
+    rw [if_pos hk, fixBranch_append hi (hb (by simpa using hk))]
     exact h
   · rename_i hk
     rw [if_neg hk]
